@@ -15,6 +15,10 @@ CLAIMED = {
   text="Coq theorems over the model of polynomial.rs / series1.rs / circle2.rs: the accumulated sums are the weighted power sums of every order 0..2K (the order-K sum included) and the right-hand side the weighted moments; any solution of the normal equations has a residual orthogonal to every monomial column, hence minimises the weighted sum of squares for non-negative weights; exact polynomial data solve the normal equations with their own coefficients (recovery under uniqueness); the closed-form series line solves the degree-1 normal equations; the three-point circle passes through its points and collinear triples are rejected; each circle-fit Jacobian entry is the derivative (Coquelicot is_derive) of the weighted radial residual; the RANSAC bookkeeping returns a candidate of maximal inlier count. Tie: the implementation's coefficients must solve the MODEL's normal equations row by row; the LM problem is driven through set_params histories via a feature-gated hook and compared with the model; LM convergence/recovery and RANSAC support are certified per run by oracles.",
   note="Theorems over exact reals (" + REALS + "). Matrix inverse, levenberg-marquardt and the RANSAC index stream are oracles; convergence is per-run (partial). Known finding: the normal-equation solve loses accuracy in proportion to the Hankel condition number (KNOWN_FINDINGS.txt).",
   technique="Rocq proof (finite-sum algebra, Coquelicot derivatives) + normal-equation residual tie + per-run certificates"),
+ "C11": dict(
+  text="Coq theorems over the model of circle2.rs / aabb2.rs: the number of circle-circle intersections is 0 / 1 / 2 exactly for the separate-nested-concentric / touching-band / crossing configurations; in the two-point branch the radicand is non-negative (no NaN) and both points lie on both circles; tangent points exist iff the point is outside, lie on the circle and the tangent is perpendicular to the radius for every d/r > 1; both line-circle parameters give points on the circle; a three-point arc starts at its first and ends at its third point; arc length / point-at-length / point-at-fraction are consistent; the circle bounding box contains the circle and touches it on all four sides. Tie: differential correspondence per configuration class with threshold-margin cases counted as ambiguous; oracles check the defining constraints on the implementation's outputs (arc bounding boxes by dense sampling).",
+  note="Theorems over exact reals (" + REALS + "). Not proved (oracle only): arc bounding-box containment/tightness, sweep sign and pass-through of three-point arcs, outer tangents. Points returned in the 1e-10 touching bands are on both circles only up to the band width.",
+  technique="Rocq proof (real algebra, trigonometric identities, atan2 polar form) + differential correspondence + constraint oracles"),
  "C12": dict(
   text="Coq theorems (all closed under the global context, no axioms) over the model of edges.rs / patches.rs / raster3.rs / indices.rs: the edge table is strictly sorted with exact multiplicities and every face maps to its three edges; boundary-loop extraction terminates within |boundary edges|+1 steps per loop for EVERY edge list and consumes every boundary edge exactly once; under even boundary degree (checked on every explored mesh) every loop is a closed vertex cycle joined by the consumed edges; the patch decomposition is a partition and two faces share a patch iff they are connected through shared edges, for every hash-iteration oracle; voxel clusters partition the set and index chaining consumes each pair exactly once, always terminating; box table consistently wound/closed with outward normals for all positive dimensions; cylinder outward for all steps >= 3 (winding by complete computation for steps 3..64). Tie: exact differential comparison with the implementation (loops, tables, chains exactly; patches/clusters as sets under two oracles) and regeneration of the box tables from the Rust source.",
   note="No axioms for the discrete theorems; generator geometry over exact reals (Coq Reals axioms). HashSet order modelled as an arbitrary pick oracle. Even-degree of boundary vertices is a hypothesis of the closed-cycle theorem, evaluated by the checker on every mesh. Cluster 26-connectivity maximality is checked by oracle per run, not proved.",
